@@ -123,7 +123,10 @@ def run_program(inst, mode):
     paths = eng.explore(fn, preF)
     res["paths"] = len(paths)
     if not paths:
-        res["errors"].append("no feasible path (vacuous instance)")
+        if "random" in inst.get("tags", []):
+            res.setdefault("notes", []).append("random member has no input inside the domain (e.g. a constant zero divisor); skipped")
+        else:
+            res["errors"].append("no feasible path (vacuous instance)")
     reported = set()
     for p in paths:
         if p.kind == "cut":
